@@ -82,6 +82,103 @@ def model_type(ans):
     return ans
 
 
+TNAMES = {4: ["xx", "xy", "yx", "yy"], 9: [a + b for a in "xyz" for b in "xyz"], 16: [a + b for a in "xyzt" for b in "xyzt"]}
+
+
+def mkarg(tok):
+    """operand of a probe: vector token (symobj.mkvec_float), 'B:<token>' the same vector scaled to a velocity (|beta| < 1),
+    'T:<n>' an n-entry transform matrix as a numba typed dict (a mapping for the interpreter as well)"""
+    from harness import symobj as so
+    if tok.startswith("T:"):
+        import numba
+        d = numba.typed.Dict.empty(numba.types.unicode_type, numba.types.float64)
+        for i, k in enumerate(TNAMES[int(tok[2:])]):
+            d[k] = round(0.3 + 0.17 * i * (-1) ** i, 3)
+        return d
+    if tok.startswith("B:"):
+        return so.mkvec_float(tok[2:]).scale(0.07)
+    return so.mkvec_float(tok)
+
+
+# ---- API sweep: EVERY attribute and method numba's typing context resolves on a vector type, with argument templates
+ATTR_SKIP = {"azimuthal", "longitudinal", "temporal"}
+METHOD_TEMPLATES = {
+    "rotateX": ["v.rotateX(0.3)"], "rotateY": ["v.rotateY(-0.9)"], "rotateZ": ["v.rotateZ(0.7)"],
+    "rotate_euler": ["v.rotate_euler(0.1, 0.2, 0.3, 'yxz')", "v.rotate_euler(0.4, -0.2, 1.3, 'zxz')"],
+    "rotate_nautical": ["v.rotate_nautical(0.1, -0.2, 0.3)"], "rotate_quaternion": ["v.rotate_quaternion(0.5, 0.1, -0.7, 0.5)"],
+    "rotate_axis": ["v.rotate_axis(u, 0.7)"], "scale": ["v.scale(2.5)", "v.scale(-1.5)"], "scale2D": ["v.scale2D(2.5)"], "scale3D": ["v.scale3D(2.5)"],
+    "scale4D": ["v.scale4D(2.5)"], "unit": ["v.unit()"], "to_beta3": ["v.to_beta3()"],
+    "boostX": ["v.boostX(beta=0.3)", "v.boostX(gamma=-1.5)"], "boostY": ["v.boostY(beta=-0.4)", "v.boostY(gamma=1.2)"],
+    "boostZ": ["v.boostZ(beta=0.6)", "v.boostZ(gamma=2.0)"],
+    "is_timelike": ["v.is_timelike()"], "is_lightlike": ["v.is_lightlike()"], "is_spacelike": ["v.is_spacelike()"],
+    "transform2D": ["v.transform2D(T4)"], "transform3D": ["v.transform3D(T9)"], "transform4D": ["v.transform4D(T16)"],
+    "boost_beta3": ["v.boost_beta3(b)"], "boostCM_of_beta3": ["v.boostCM_of_beta3(b)"],
+    "boost": ["v.boost(b)", "v.boost(w)"], "boostCM_of": ["v.boostCM_of(b)", "v.boostCM_of(w)"],
+}
+for _m in ("add", "subtract", "dot", "equal", "not_equal", "isclose", "deltaphi", "is_parallel", "is_antiparallel", "is_perpendicular", "cross", "deltaR",
+           "deltaR2", "deltaangle", "deltaeta", "deltaRapidityPhi", "deltaRapidityPhi2", "boost_p4", "boostCM_of_p4"):
+    METHOD_TEMPLATES[_m] = [f"v.{_m}(w)"]
+API_ARGS = "v, w, u, b, T4, T9, T16"
+
+
+def api_expressions(tok):
+    """[(name, expression)] for every attribute / method numba resolves on the type of `tok`, and the names it resolves that
+    have no argument template here (reported, so that nothing is silently skipped)"""
+    import numba
+    import vector
+    vector.register_numba()
+    from numba.core.registry import cpu_target
+    tc = cpu_target.typing_context
+    tc.refresh()
+    v = symobj.mkvec_float(tok)
+    t = numba.typeof(v)
+    out, untemplated = [], []
+    for name in sorted(n for n in dir(v) if not n.startswith("_")):
+        try:
+            at = tc.resolve_getattr(t, name)
+        except Exception:  # noqa: BLE001
+            at = None
+        if at is None or name in ATTR_SKIP:
+            continue
+        if type(at).__name__ in ("BoundFunction", "Function", "Dispatcher"):
+            if name.startswith("to_"):
+                out.append((name, f"v.{name}()"))
+            elif name in METHOD_TEMPLATES:
+                out += [(name, e) for e in METHOD_TEMPLATES[name]]
+            else:
+                untemplated.append(name)
+        else:
+            out.append((name, f"v.{name}"))
+    return out, untemplated
+
+
+def api_jobs(r, tier):
+    """compile-and-run jobs covering the whole numba-supported API of a few operand types (one per dimension and flavor in the
+    thorough tier, one per dimension in the quick tier); expressions the interpreter itself rejects are left out"""
+    jobs, n_expr, untemplated = [], 0, set()
+    # momentum types carry every generic name plus the momentum spellings: quick = all three momentum types + one generic type
+    types = [(fl, d) for d in (2, 3, 4) for fl in "gm"] if tier == "thorough" else [("m", d) for d in (2, 3, 4)] + [("g", r.choice((2, 3, 4)))]
+    for fl, d in types:
+        me = symobj.vtoken(fl, r.choice(C.SIGS[d]), 1)
+        toks = [me, symobj.vtoken(fl, r.choice(C.SIGS[d]), 2), symobj.vtoken(fl, r.choice(C.SIG3), 3), "B:" + symobj.vtoken(fl, r.choice(C.SIG3), 2), "T:4", "T:9", "T:16"]
+        exprs, un = api_expressions(me)
+        untemplated |= set(un)
+        env = dict(zip([a.strip() for a in API_ARGS.split(",")], [mkarg(t) for t in toks]))
+        ok = []
+        for name, e in exprs:
+            try:
+                eval(e, {}, env)          # the interpreter accepts it
+                ok.append(e)
+            except Exception:  # noqa: BLE001
+                pass
+        n_expr += len(ok)
+        size = 8
+        for i in range(0, len(ok), size):
+            chunk = ok[i:i + size]
+            jobs.append((f"def f({API_ARGS}):\n    return ({', '.join(chunk)},)\n", toks))
+    return jobs, n_expr, sorted(untemplated)
+
+
 def probe_worker(job):
     """compile and run one probe in a fresh process: (source, operands) -> description of (type, values) for njit and interpreter"""
     src, toks = job
@@ -92,7 +189,7 @@ def probe_worker(job):
     ns = {}
     exec(src, ns)
     f = ns["f"]
-    args = [so.mkvec_float(t) for t in toks]
+    args = [mkarg(t) for t in toks]
 
     def desc(r):
         if isinstance(r, vector.Vector):
@@ -141,6 +238,24 @@ def ak_probe_worker(job):
     except Exception as e:  # noqa: BLE001
         c = ("raises", type(e).__name__)
     return src, list(sig), i, c
+
+
+def split_top(body):
+    """split 'e1, e2(a, b), e3' at top-level commas"""
+    out, depth, cur = [], 0, ""
+    for ch in body:
+        if ch in "([":
+            depth += 1
+        elif ch in ")]":
+            depth -= 1
+        if ch == "," and depth == 0:
+            out.append(cur.strip())
+            cur = ""
+        else:
+            cur += ch
+    if cur.strip():
+        out.append(cur.strip())
+    return out
 
 
 def same(a, b):
@@ -221,8 +336,17 @@ def correspondence(ctx):
             toks = [symobj.vtoken(fl, r.choice(C.SIGS[d or d0]), i + 1) for i, d in enumerate(dims)]    # same flavor: mixed flavor is the known finding
             jobs.append((src, toks))
     jobs.append(("def f(v, w):\n    return v.add(w)\n", ["g:xy:-:-:1", "m:rhophi:-:-:2"]))       # the known finding, for the record
-    with mp.get_context("spawn").Pool(min(12, os.cpu_count() or 4)) as pool:
+    ajobs, n_api_expr, untemplated = api_jobs(r, ctx.tier)
+    with mp.get_context("spawn").Pool(min(14, os.cpu_count() or 4)) as pool:
         results = pool.map(probe_worker, jobs)
+        ares = pool.map(probe_worker, ajobs, chunksize=1)
+        # second pass: a chunk that differs is split into its single expressions to name the member that differs
+        single = []
+        for src, toks, interp, comp in ares:
+            if not same(interp, comp):
+                body = src.split("return (", 1)[1].rsplit(",)", 1)[0]
+                single += [(f"def f({API_ARGS}):\n    return {e}\n", toks) for e in split_top(body)]
+        results += pool.map(probe_worker, single, chunksize=1) if single else []
         akjobs = [(src, r.choice(C.SIG4), ctx.seed + k) for k, src in enumerate(AK_PROBES)]
         akres = pool.map(ak_probe_worker, akjobs)
     for src, sig, interp, comp in akres:
@@ -231,7 +355,7 @@ def correspondence(ctx):
             fails.append({"key": "numba-awkward-probe", "what": dis[-1][:300], "code": None})
     known = 0
     for src, toks, interp, comp in results:
-        mixed = len({t[0] for t in toks}) > 1
+        mixed = len({t[2:][0] if t.startswith("B:") else t[0] for t in toks if not t.startswith("T:")}) > 1
         if not same(interp, comp):
             if mixed:
                 known += 1
@@ -241,7 +365,8 @@ def correspondence(ctx):
             fails.append({"key": "numba-probe:" + src.split("return")[1].strip()[:30], "what": dis[-1][:300], "code": probe_replay(src, toks)})
     return {"ok": not dis, "disagreements": dis[:12], "failing_inputs": fails[:8],
             "stats": {"traces_validated_against_impl": len(reqs) + len(jobs), "typing_resolutions": len(reqs), "unsupported_by_model": unsupported,
-                      "compile_and_run_probes": len(jobs), "awkward_in_numba_probes": len(akjobs), "known_mixed_flavor_probes": known},
+                      "compile_and_run_probes": len(jobs), "awkward_in_numba_probes": len(akjobs), "known_mixed_flavor_probes": known,
+                      "api_sweep_programs": len(ajobs), "api_sweep_expressions": n_api_expr, "api_names_without_template": untemplated},
             "samples": [{"request": reqs[i], "numba": real[i], "model": model_type(model[i])} for i in (0, len(reqs) // 2, len(reqs) - 1)]}
 
 
